@@ -11,6 +11,7 @@ Deciding method: TLA+ specification tla/Linker.tla + TLC.
                    error outcomes must coincide with the specification's Fail
 """
 import random
+import re
 
 from harness import core, objgen
 from harness import tlc as tlcmod
@@ -20,10 +21,10 @@ INVARIANTS = ("Placement", "InputAligned", "Inside", "NoOverlap", "Content", "Al
               "LayoutSymbolAt", "RelocsResolve", "NoUndefinedOutput", "DoneIsClean", "FailIsJustified")
 MC_JOBS = "---- MODULE LinkerJobs ----\nEXTENDS LinkerJobs_MC\nJobs == MCJobs\n====\n"
 # actions of Linker.tla every M run set must cover (names as TLC's coverage reports them)
-ACTIONS = ("Start", "DoInjectSections", "DoInjectNew", "DoMergeGlobal", "DoDuplicateGlobal", "DoInjectRelocs",
-           "DoDuplicateEntry", "PlaceSection", "PlaceSectionData", "DefineSymbol", "DefineSymbolTwice", "AlignTo",
+ACTIONS = ("Start", "InjectSections", "InjectNew", "MergeGlobal", "DuplicateGlobal", "InjectRelocs",
+           "DuplicateEntry", "PlaceSection", "PlaceSectionData", "DefineSymbol", "DefineSymbolTwice", "AlignTo",
            "CloseMemory", "MemoryOverflow", "EmptyLayout", "CheckUndefined", "UndefinedFound", "RelaxNone",
-           "RelocateFits", "RelocateDoesNotFit")
+           "Relocate", "RelocateFails")
 # sizes of relocation fields (checked against Reloc.tla's RelSize by Linker_Trace's invariant Domain)
 REL_SIZES = {"absaddr16": 2, "absaddr32": 4, "absaddr64": 8, "rel32": 4, "abs32": 4, "abs64": 8, "jmp8": 1,
              "b_imm12": 4, "b_imm20": 4, "abs32_imm20": 4, "abs32_imm12": 4, "rel_imm20": 4, "rel_imm12": 4,
@@ -36,11 +37,11 @@ def tla_set(xs):
 
 
 def mc_cfg(families, sizes=(1, 3), aligns=(1, 4), shape="2+1", statuses=("absent", "gdef", "gref"), syms3=False,
-           relsizes=(2,), free=False):
+           relsizes=(2,), free=False, announce=False):
     out = ["CONSTANTS", " Families = %s" % tla_set(families), " Sizes = %s" % tla_set(sizes),
            " Aligns = %s" % tla_set(aligns), ' Shape = "%s"' % shape, " Statuses = %s" % tla_set(statuses),
            " SymObjs3 = %s" % ("TRUE" if syms3 else "FALSE"), " RelSizes = %s" % tla_set(relsizes),
-           " Free = %s" % ("TRUE" if free else "FALSE"),
+           " Free = %s" % ("TRUE" if free else "FALSE"), " Announce = %s" % ("TRUE" if announce else "FALSE"),
            "INIT MCInit", "NEXT MCNext", "CHECK_DEADLOCK TRUE"]
     out += ["INVARIANT %s" % i for i in INVARIANTS + ("NoStuck",)]
     return "\n".join(out) + "\n"
@@ -55,27 +56,33 @@ def trace_cfg(check_values, nchunks=16):
 
 
 def model_check(ctx, prop=P):
-    """idiom M; a failing invariant here is a fault of the specification, not of ppci"""
+    """idiom M; a failing invariant here is a fault of the specification, not of ppci.
+    TLC's -coverage costs a factor 5 and more on this specification, so it is not used: in a small
+    universe that reaches every action each action announces itself (PrintT) and the counts are
+    taken from TLC's output."""
     thorough = ctx.tier == "thorough"
-    runs = [("design", mc_cfg(("place", "syms", "reloc"))),
-            ("free choices", mc_cfg(("place",), sizes=(1, 3), aligns=(1, 2), free=True))]
+    small = mc_cfg(("place", "syms", "reloc"), sizes=(3,), aligns=(1, 4), statuses=("gdef", "gref"), relsizes=(1,),
+                   announce=True)
+    runs = [("placement, symbols, relocation sites; every action", mc_cfg(
+        ("place", "syms", "reloc"), statuses=("gdef", "gref"), relsizes=(1,), announce=True), True)]
     if thorough:
-        runs = [("place", mc_cfg(("place",), sizes=(0, 1, 3, 4), aligns=(1, 2, 4))),
-                ("place 2+2", mc_cfg(("place",), sizes=(1, 3), aligns=(1, 4), shape="2+2")),
-                ("place 2+1+1", mc_cfg(("place",), sizes=(1, 2), aligns=(1, 2), shape="2+1+1")),
-                ("syms", mc_cfg(("syms",), statuses=("absent", "local", "gdef", "gref"))),
-                ("syms 3 objects", mc_cfg(("syms",), syms3=True)),
-                ("reloc", mc_cfg(("reloc",), relsizes=(2, 3))),
-                ("free choices", mc_cfg(("place",), sizes=(1, 3), aligns=(1, 2, 4), free=True))]
+        runs = [("every action (coverage)", small, True),
+                ("place", mc_cfg(("place",), sizes=(0, 1, 3, 4), aligns=(1, 2, 4)), False),
+                ("place 2+2", mc_cfg(("place",), sizes=(1, 3), aligns=(1, 4), shape="2+2"), False),
+                ("place 2+1+1", mc_cfg(("place",), sizes=(1, 2), aligns=(1, 2), shape="2+1+1"), False),
+                ("syms", mc_cfg(("syms",), statuses=("absent", "local", "gdef", "gref")), False),
+                ("syms 3 objects", mc_cfg(("syms",), syms3=True), False),
+                ("reloc", mc_cfg(("reloc",), relsizes=(2, 3)), False),
+                ("free choices", mc_cfg(("place",), sizes=(1, 3), aligns=(2,), free=True), False)]
     covered = {}
-    for label, cfg in runs:
+    for label, cfg, cov in runs:
         res = ctx.tlc("Linker_MC", cfg, label="M: " + label, workers=4, extra_modules={"LinkerJobs": MC_JOBS},
-                      timeout=3000)
+                      timeout=3000, coverage=False)
         for e in res.errors:
             raise tlcmod.MachineryError("Linker.tla violates its own invariant in run '%s': %s\n%s" % (
                 label, e, e.text[:1500]))
-        for k, v in tlcmod.action_coverage(res).items():
-            covered[k.split(".")[-1]] = covered.get(k.split(".")[-1], 0) + v
+        for m in re.finditer(r'^<<"act", "(\w+)">>', res.raw, re.M):
+            covered[m.group(1)] = covered.get(m.group(1), 0) + 1
     missing = [a for a in ACTIONS if not covered.get(a)]
     if missing:
         raise tlcmod.MachineryError("M configs do not cover the actions %s" % missing)
@@ -115,7 +122,7 @@ def judge_traces(ctx, traces, check_values, prop, label, keyfn, workers=4):
 
     path = ctx.trace_file(traces)
     res = ctx.tlc("Linker_Trace", trace_cfg(check_values), label=label, env={"TRACE_FILE": path},
-                  continue_=True, workers=workers, timeout=3000)
+                  continue_=True, workers=workers, timeout=3000, coverage=False)
     ctx.cov["traces_validated_against_impl"] += len(traces)
     seen = set()
     for e in res.errors:
@@ -174,7 +181,7 @@ class Engine:
         ctx.assume("padding byte values and symbol typ/size after merging are not constrained by the property")
         if ctx.only is None:
             model_check(ctx)
-        n = 1500 if thorough else 240
+        n = 1500 if thorough else 160
         jobs = gen_jobs(ctx, n)
         if ctx.only is not None:
             jobs = [j for j in jobs if j["id"] == ctx.only["case"]["id"]]
